@@ -168,6 +168,8 @@ def check_producers(repo, model: FsmModel, pm: ProviderModel, rep):
                 else:
                     d['problems'].add('%s is appended as a constant; the standard ties it to a PDU or primitive' % evname)
     for (mname, line), f in sorted(all_sites.items()):
+        if repo.is_helper(f):
+            continue    # judged where it is inlined, with the conditions of the calling path
         if (mname, line) not in sites:
             rep.bad('C05.G3', 'dulprovider:DULServiceProvider.%s:append@unreached' % mname, f.loc(),
                     'an event is queued at line %d by code that is not reached from the constructor or the three producers' % line)
@@ -232,7 +234,7 @@ def check_timer(repo, pm, rep):
     if f is None:
         raise AnalysisError('Timer.check not found')
     rep.analysed(f)
-    c = SymClient(repo, f, event_of=lambda *a: None, hierarchy=hier)
+    c = SymClient(repo, f, event_of=lambda *a: None, hierarchy=hier, bool_returns=True, inline=repo.is_helper)
     finals = c.final_states(c.run(empty_state()))
     problems = []
     n_false = 0
